@@ -801,3 +801,24 @@ Proof.
     destruct Hx as [<-|Hx]; [exact Hr|apply IH; exact Hx].
   - clear -H. induction H as [|y r data rows [Hy _] _ IH]; constructor; auto.
 Qed.
+
+(* ===================================================================== scaling (special case of linearity) *)
+Definition scaled (a : Q) (y y1 : list Q) : Prop := forall t, (getQ y t == a * getQ y1 t)%Q.
+
+Lemma scaled_lincomb a y y1 : scaled a y y1 -> lincomb a 0 y y1 y1.
+Proof. intros H t. rewrite (H t). ring. Qed.
+
+Theorem fir_scale pinv XT a (y y1 : list Q) :
+  length y = length y1 -> scaled a y y1 ->
+  forall j, (getQ (fir pinv y XT) j == a * getQ (fir pinv y1 XT) j)%Q.
+Proof.
+  intros Hl Hs j. rewrite (fir_linear pinv XT a 0 y y1 y1 Hl Hl (scaled_lincomb a y y1 Hs) j). ring.
+Qed.
+
+Theorem eta_scale a y y1 len bc starts k :
+  (0 < len)%nat -> scaled a y y1 -> 0 <= k < Z.of_nat len ->
+  (getQ (eta_of (apply_baseline bc (map (seg_fun y len) starts)) len) k ==
+   a * getQ (eta_of (apply_baseline bc (map (seg_fun y1 len) starts)) len) k)%Q.
+Proof.
+  intros Hlen Hs Hk. rewrite (eta_of_linear a 0 y y1 y1 len bc starts k Hlen (scaled_lincomb a y y1 Hs) Hk). ring.
+Qed.
